@@ -1,7 +1,7 @@
 ------------------------------ MODULE JSchema ------------------------------
 (* Judges for parse_schema, canonical form and fingerprint events            *)
 (* (C11, C13, C14).                                                          *)
-EXTENDS Naturals, Integers, Sequences, SequencesExt, FiniteSets, TLC, JCommon, Utf8, AvroCanon, AvroBinary, Rabin
+EXTENDS Naturals, Integers, Sequences, SequencesExt, FiniteSets, TLC, JCommon, Utf8, AvroCanon, AvroBinary, AvroResolve, Rabin
 
 IsParseError(res) == ~res.ok /\ (\E i \in 1..Len(res.exc) : res.exc[i] \in {"SchemaParseException", "UnknownType"})
 NameSet(names) == { names[i] : i \in 1..Len(names) }
@@ -62,13 +62,16 @@ Judge_canon(c) ==
              \* ... also when both are given, in either role (schemas without logical annotations: which side's annotation governs a
              \* resolved read is not pinned)
              IF Len(c.enc) = 0 \/ ~P2.ok \/ NullNsInside(P.t, <<>>) \/ HasLogical(P.t) THEN Cl("C13.resolves", "skip")
-             ELSE Tri("C13.resolves",
-                      \A i \in 1..Len(c.enc) :
-                         LET e == c.enc[i]
-                             d2 == Decode(P2.t, e.bytes, P2.st.names)
-                             d0 == Decode(P.t, e.bytes, P.st.names)
-                         IN d2.st = "ok" /\ e.back2.ok /\ VEq(e.back2.v, d2.v)
-                            /\ (d0.st = "ok" /\ VEq(d0.v, d2.v) => e.back3.ok /\ VEq(e.back3.v, d0.v))) >>
+             ELSE LET ResOk(wt, wn, rt, rn, bs, got) ==
+                        LET x == Resolve(wt, rt, bs, wn, rn) IN
+                        CASE x.st = "ok" -> got.ok /\ VEq(got.v, x.v)
+                          [] x.st = "raise" -> ~got.ok        \* (two types with one simple name in a union: matched by unqualified name)
+                          [] OTHER -> TRUE
+                  IN Tri("C13.resolves",
+                         \A i \in 1..Len(c.enc) :
+                            LET e == c.enc[i] IN
+                            /\ ResOk(P.t, P.st.names, P2.t, P2.st.names, e.bytes, e.back2)
+                            /\ ResOk(P2.t, P2.st.names, P.t, P.st.names, e.bytes, e.back3)) >>
 
 \* op = "fingerprint": c.text (code points), c.alg (text), c.res = [ok, hex (text)] | [ok |-> FALSE, exc], c.known << [name, hex] >> (hashlib digests of the UTF-8 bytes)
 A_RABIN == Cps("CRC-64-AVRO")
